@@ -4,7 +4,9 @@ Stages: proofs (Properties_C01.v) -> correspondence of patterns.update_quantifie
 (sre_parse of the real input / output texts vs Model_C01.update_quantifier) -> correspondence of the Coq matcher
 with re.search -> converter correspondence (to_json_schema: nullable / readOnly) -> oracle search on the rewriter
 (strings matching the rewritten pattern must match the original and respect the bounds; failures are classified by
-the region predicates EVALUATED IN COQ) -> end-to-end oracle (small OpenAPI documents -> as_strategy() positive draws
+the region predicates EVALUATED IN COQ) -> conversion pipeline of a parameter location (the schema handed to from_schema by the real
+get_parameters_strategy vs Model_C01.location_schema: WHERE the rewriter runs) -> parameter oracle (path / query / header / cookie values vs
+the DECLARED pattern with re.search; attribution to a rewriter finding needs declared bounds) -> end-to-end oracle (small OpenAPI documents -> as_strategy() positive draws
 validated with python-jsonschema against an independent conversion) -> replay of the listed findings.
 """
 from __future__ import annotations
@@ -13,7 +15,7 @@ import json
 import re
 import time
 import warnings
-from urllib.parse import unquote
+from urllib.parse import unquote, unquote_plus
 
 from harness import core
 from harness.core import cZ, cbool, cjson, clist, copt, cstr, ctuple, popt, pstr
@@ -398,6 +400,8 @@ def unsym(v):
         return [unsym(x) for x in v]
     if isinstance(v, tuple):
         return tuple(unsym(x) for x in v)
+    if isinstance(v, dict):
+        return {k: unsym(x) for k, x in v.items()}
     return v
 
 
@@ -1261,6 +1265,10 @@ def string_failure_region(sch, value, pending):
     p = sch.get("pattern")
     if not p or not isinstance(value, str):
         return None
+    if not (sch.get("minLength") or sch.get("maxLength")):
+        # the pattern rewriter is only ever applied to length keywords THE AUTHOR WROTE (C01_pattern_rewritten_only_under_declared_length):
+        # a value that violates the pattern of a schema declaring no length is outside every recorded rewriter finding
+        return None
     if not plain_syntax(p):
         return string_level_region(p)
     pending.append((p, sch.get("minLength"), sch.get("maxLength"), value))
@@ -1345,7 +1353,7 @@ def stage_end_to_end(chk, n_docs, deadline=None):
                     continue
                 value = cont[prm["name"]]
                 if prm["in"] == "path" and isinstance(value, str):
-                    value = unquote(value)  # the path location percent-encodes inside the strategy (quote_all): read through that coercion
+                    value = unquote_plus(value)  # the path location applies quote_plus inside the strategy (quote_all): read through that coercion
                 stats["parts_checked"] += 1
                 chk.seen({"e2e": [prm["schema"], value]}, True)
                 if not param_conforms(prm["schema"], value):
@@ -2012,6 +2020,455 @@ def stage_history(chk, n_docs, draws=5, deadline=None):
 
 
 # ----------------------------------------------------------------------------------------
+# WHERE the rewriter runs: the conversion pipeline of a parameter location (Model_C01 section 10)
+# ----------------------------------------------------------------------------------------
+# one entry per class of the rewriter's case split: single class / literal (anchored on both sides, one side, not at all),
+# single repeat, multi-quantifier path, shapes it leaves alone
+PIPE_PATTERNS = {
+    "single_class_anchored": ["^[A-F]$", "^\\d$", "^[^/]$", "\\A[a-z]\\Z", "^[0-9a-f]$", "^\\w$"],
+    "single_literal_anchored": ["^x$", "\\Aa\\Z", "^-$", "^7$"],
+    "single_half_anchored": ["^[a-z]", "[0-9]$", "^a", "b\\Z"],
+    "single_unanchored": ["[a-z]", "\\d", "a", "[^x]"],
+    "repeat_anchored": ["^[a-z]+$", "^[a-z]*$", "\\A\\d{2,4}\\Z", "^[0-9a-f]{4}$", "^\\w{1,8}$", "^a+$", "\\A[A-Z]{0,3}\\Z"],
+    "repeat_unanchored": ["[a-z]+", "\\d{2,}", "^[a-z]{3}", "x*$"],
+    "multi": ["^ab*c*$", "^x[0-9]*\\Z", "^a+b*$", "\\A[a-z]{2}\\d{1,3}\\Z", "^id-[0-9]+$"],
+    "left_alone": ["^(ab)+$", "^.$", ".", "^a|b$", "^[a-z][0-9]$", "^ab$", "^(?:x|y)$"],
+}
+PIPE_LOCATIONS = {"path": "LPath", "query": "LQuery", "header": "LHeader", "cookie": "LCookie"}
+PIPE_TYPES = {"string": "TyString", "integer": "TyInteger", "boolean": "TyBoolean"}
+KW_KEYS = ("type", "pattern", "minLength", "maxLength", "format")
+
+
+def gen_declared(rng, want_pattern=0.85, strings_only=False):
+    """One DECLARED parameter schema (Open API 3.0 spelling): a pattern from every class of the rewriter (or one drawn by
+    gen_case), with and without length keywords (absent / 0 / small / large, one or both), nullable in its three states,
+    type string / absent / (rarely) integer, optionally a vendor keyword.  Returns (schema, pattern class)."""
+    sch = {}
+    k = rng.random()
+    if strings_only or k < 0.84:
+        sch["type"] = "string"
+    elif k < 0.93:
+        pass  # no type keyword: headers get type string by default, path parameters get no minLength default
+    else:
+        sch["type"] = rng.choice(["integer", "boolean"])
+    cls = "none"
+    if rng.random() < want_pattern and sch.get("type") in (None, "string"):
+        if rng.random() < 0.8:
+            cls = rng.choice(list(PIPE_PATTERNS))
+            sch["pattern"] = rng.choice(PIPE_PATTERNS[cls])
+        else:
+            cls = "generated"
+            sch["pattern"] = gen_case(rng)[0]
+    m = rng.random()
+    if m < 0.45:
+        pass  # no length keyword at all: nothing may be folded into the pattern
+    elif m < 0.6:
+        sch["minLength"] = rng.choice([0, 0, 1, 1, 2, 3])
+    elif m < 0.8:
+        sch["maxLength"] = rng.choice([0, 1, 2, 3, 5, 8, 20])
+    else:
+        sch["minLength"] = rng.choice([0, 1, 1, 2, 3])
+        sch["maxLength"] = sch["minLength"] + rng.choice([0, 0, 1, 2, 5])
+    n = rng.random()
+    if n < 0.15:
+        sch["nullable"] = True
+    elif n < 0.3:
+        sch["nullable"] = False
+    if rng.random() < 0.1:
+        sch["x-note"] = "n"
+    return sch, cls
+
+
+def c_decl(sch) -> str:
+    t = sch.get("type")
+    nul = {None: "NAbsent", True: "NTrue", False: "NFalse"}[sch.get("nullable")]
+    other = any(k not in KW_KEYS and k != "nullable" for k in sch)
+    pat = sch.get("pattern")
+    return (f"(mkDecl {copt(PIPE_TYPES[t] if t else None, 'ptype')} {nul} {cbool(other)} "
+            f"{copt(c_seq(to_ast(pat)) if pat is not None else None, 'pattern')} {c_optz(sch.get('minLength'))} {c_optz(sch.get('maxLength'))})")
+
+
+def c_params(params) -> str:
+    return clist([f"(mkParam {cstr(p['name'])} {cbool(bool(p['required']))} {c_decl(p['schema'])})" for p in params], "param")
+
+
+def pipeline_document(params, dialect):
+    """The document schemathesis is given for a list of logical (3.0-spelled) parameters."""
+    path = "/r" + "".join("/{%s}" % p["name"] for p in params if p["in"] == "path")
+    if dialect == "2.0":
+        ps = [{"name": p["name"], "in": p["in"], "required": p["required"], **rename_nullable(p["schema"])} for p in params]
+        return {"swagger": "2.0", "info": {"title": "t", "version": "1"},
+                "paths": {path: {"post": {"parameters": ps, "responses": {"200": {"description": "ok"}}}}}}, path
+    return {"openapi": {"3.0": "3.0.2", "3.1": "3.1.0"}[dialect], "info": {"title": "t", "version": "1"},
+            "paths": {path: {"post": {"parameters": [dict(p) for p in params], "responses": {"200": {"description": "ok"}}}}}}, path
+
+
+class from_schema_spy:
+    """Records the schema object that reaches hypothesis_jsonschema.from_schema (the foreign generator): the generation
+    schema of a location is whatever get_parameters_strategy hands over, wherever on the way it was rewritten."""
+
+    def __enter__(self):
+        from schemathesis.specs.openapi import _hypothesis as H
+
+        self.module, self.original, self.seen = H, H.from_schema, []
+
+        def spy(schema, **kwargs):
+            self.seen.append(json.loads(json.dumps(schema, default=str)))
+            return self.original(schema, **kwargs)
+
+        H.from_schema = spy
+        return self
+
+    def __exit__(self, *exc):
+        self.module.from_schema = self.original
+        return False
+
+
+def real_location_schema(op, location):
+    """The object the real get_parameters_strategy(operation, make_positive_strategy, location) generates from."""
+    from schemathesis.core.errors import InternalError
+    from schemathesis.generation import GenerationConfig
+    from schemathesis.specs.openapi import _hypothesis as H
+
+    with from_schema_spy() as spy:
+        try:
+            with warnings.catch_warnings():
+                warnings.simplefilter("ignore")
+                H.get_parameters_strategy(op, H.make_positive_strategy, location, GenerationConfig())
+        except InternalError:
+            return "raises InternalError"
+        except Exception as exc:  # noqa: BLE001
+            return f"raises {type(exc).__name__}"
+    if len(spy.seen) != 1:
+        return f"from_schema called {len(spy.seen)} times"
+    return spy.seen[0]
+
+
+def canon_real_kw(d):
+    return {"type": d.get("type"), "pattern": d.get("pattern"), "min": d.get("minLength"), "max": d.get("maxLength"),
+            "other": any(k not in KW_KEYS for k in d), "format": d.get("format") == "_header_value",
+            "foreign_format": "format" in d and d.get("format") != "_header_value"}
+
+
+def canon_real_prop(d):
+    if not isinstance(d, dict):
+        return ("not-a-dict", d)
+    if "anyOf" in d:
+        alts = d["anyOf"]
+        if not (isinstance(alts, list) and len(alts) == 2 and alts[1] == {"type": "null"} and isinstance(alts[0], dict)) or any(k not in ("anyOf", "type", "minLength") for k in d):
+            return ("odd-wrapper", d)
+        return ("GNullable", d.get("type"), d.get("minLength"), canon_real_kw(alts[0]))
+    return ("GPlain", canon_real_kw(d))
+
+
+def model_kw(k):
+    k = unsym(k)
+    t = popt(k["k_type"])
+    pat = popt(k["k_pattern"])
+    return {"type": None if t is None else {v: n for n, v in PIPE_TYPES.items()}[t], "pattern_ast": unsym_ast(pat), "rewritten": bool(k["k_rewritten"]),
+            "min": popt(k["k_min"]), "max": popt(k["k_max"]), "other": bool(k["k_other"]), "format": bool(k["k_format"])}
+
+
+def model_prop(g):
+    g = unsym(g) if not isinstance(g, tuple) else g
+    if g[0] == "GPlain":
+        return ("GPlain", model_kw(g[1]))
+    t = popt(unsym(g[1]))
+    return ("GNullable", None if t is None else {v: n for n, v in PIPE_TYPES.items()}[t], popt(g[2]), model_kw(g[3]))
+
+
+def kw_agrees(real, mod, declared, path_default=False):
+    """One dict of the generation schema vs the model.  The pattern: text identity with the DECLARED text when the model says
+    it is not rewritten; AST of the real text vs the model AST when it is (or the text-identical corner, see stage_schema_keywords)."""
+    if real["foreign_format"]:
+        return False
+    if (real["type"], real["other"], real["format"]) != (mod["type"], mod["other"], mod["format"]):
+        return False
+    dp = declared.get("pattern")
+    if not mod["rewritten"]:
+        return real["pattern"] == dp and (real["min"], real["max"]) == (mod["min"], mod["max"])
+    if real["pattern"] == dp:
+        # the rewritten TEXT equals the declared text ((a){1,5} with 1/5): the code keeps the declared keywords
+        kept_min = declared.get("minLength")
+        if kept_min is None and path_default and real["type"] == "string":
+            kept_min = 1  # get_schema_for_location's setdefault on the dict that kept its keywords
+        return mod["pattern_ast"] == unsym_ast(to_ast(dp)) and (real["min"], real["max"]) == (kept_min, declared.get("maxLength"))
+    try:
+        return unsym_ast(to_ast(real["pattern"])) == mod["pattern_ast"] and (real["min"], real["max"]) == (mod["min"], mod["max"])
+    except (Unsupported, re.error, TypeError):
+        return False
+
+
+def unsym_ast(ast):
+    """The harness AST (tuples / lists / str) in the shape core.parse_coq_value + unsym gives back for the same term."""
+    return json.loads(json.dumps(ast))
+
+
+def prop_agrees(real, mod, declared, location) -> bool:
+    if real[0] != mod[0]:
+        return False
+    if real[0] == "GPlain":
+        return kw_agrees(real[1], mod[1], declared, path_default=location == "path")
+    return (real[1], real[2]) == (mod[1], mod[2]) and kw_agrees(real[3], mod[3], declared)
+
+
+def stage_location_pipeline(chk, n, corpus=()):
+    """Correspondence for Model_C01 section 10: the generation schema the real code builds for each location
+    (get_parameters_strategy -> get_schema_for_location -> parameters_to_json_schema -> as_json_schema -> to_json_schema_recursive,
+    then make_positive_strategy; recorded where it is handed to from_schema) vs Model_C01.location_schema, on 1-3 parameters
+    per location with patterns from every class of the rewriter, with and without declared lengths, 3.0 / 3.1 / 2.0 documents."""
+    import schemathesis
+
+    rng = chk.rng
+    cases = []
+    for c in corpus:  # hand-picked parameters first, in every dialect
+        for dialect in ("3.0", "3.1", "2.0"):
+            if not (dialect == "2.0" and c["in"] == "cookie"):
+                cases.append((c["in"], dialect, [{"name": "id", "in": c["in"], "required": True, "schema": dict(c["schema"]), "class": "corpus"}]))
+    n += len(cases)
+    while len(cases) < n:
+        location = rng.choice(list(PIPE_LOCATIONS))
+        dialect = rng.choice(["3.0", "3.0", "3.1", "2.0"])
+        if dialect == "2.0" and location == "cookie":
+            continue
+        names = rng.sample(["id", "q", "X-A", "c", "kind"], rng.choice([1, 1, 2, 3]))
+        params = []
+        for name in names:
+            sch, cls = gen_declared(rng)
+            if dialect == "3.1":
+                sch.pop("nullable", None)  # not a 3.1 keyword
+            if "pattern" in sch and not plain_syntax(sch["pattern"]):
+                continue
+            params.append({"name": name, "in": location, "required": True if location == "path" else rng.random() < 0.5, "schema": sch, "class": cls})
+        if params:
+            cases.append((location, dialect, params))
+    model = core.coq_eval(IMPORTS, [f"location_schema {PIPE_LOCATIONS[loc]} {c_params(params)}" for loc, _, params in cases])
+    stats = {"locations": len(cases), "agree": 0, "properties_compared": 0, "rewritten_in_model": 0, "undeclared_length_with_pattern": 0, "raises": 0}
+    for (location, dialect, params), mv in zip(cases, model):
+        raw, path = pipeline_document([{k: v for k, v in p.items() if k != "class"} for p in params], dialect)
+        case = {"location": location, "document": raw}
+        for p in params:
+            chk.count(f"pipeline:{location}:{p['class']}:{'declared-length' if (p['schema'].get('minLength') or p['schema'].get('maxLength')) else 'no-length'}")
+        chk.seen({"pipeline": case}, any("pattern" in p["schema"] for p in params))
+        try:
+            op = schemathesis.openapi.from_dict(raw)[path]["POST"]
+            real = real_location_schema(op, location)
+        except Exception as exc:  # noqa: BLE001
+            real = f"raises {type(exc).__name__} while loading"
+        m = popt(mv)
+        if m is None or isinstance(real, str):
+            stats["raises"] += 1
+            if not (m is None and real == "raises InternalError"):
+                chk.disagree("generation schema of a parameter location vs Model_C01.location_schema (raises)", case, real, "raises InternalError" if m is None else "a schema")
+            else:
+                stats["agree"] += 1
+            continue
+        m_props, m_req = m
+        m_props = [(pstr(name), model_prop(g)) for name, g in m_props]
+        m_req = [pstr(x) for x in m_req]
+        ok = isinstance(real, dict) and real.get("type") == "object" and real.get("additionalProperties") is False
+        ok = ok and set(real) == {"properties", "additionalProperties", "type", "required"}
+        ok = ok and list(real["properties"]) == [name for name, _ in m_props] and list(real["required"]) == m_req
+        if ok:
+            declared = {p["name"]: p["schema"] for p in params}
+            for name, mp in m_props:
+                stats["properties_compared"] += 1
+                kwm = mp[1] if mp[0] == "GPlain" else mp[3]
+                stats["rewritten_in_model"] += kwm["rewritten"]
+                d = declared[name]
+                if "pattern" in d and not (d.get("minLength") or d.get("maxLength")):
+                    stats["undeclared_length_with_pattern"] += 1
+                if not prop_agrees(canon_real_prop(real["properties"][name]), mp, d, location):
+                    ok = False
+                    what = "generation schema of a parameter vs Model_C01.location_schema"
+                    if "pattern" in d and not (d.get("minLength") or d.get("maxLength")) and real["properties"][name].get("pattern") != d["pattern"]:
+                        what += " - the pattern of a parameter that declares NO length keyword was rewritten (C01_pattern_rewritten_only_under_declared_length)"
+                    chk.disagree(what, {**case, "parameter": name, "declared": d}, real["properties"][name], json.loads(json.dumps(mp, default=str)))
+        else:
+            chk.disagree("generation schema of a parameter location vs Model_C01.location_schema (object level: properties / required)", case, real,
+                         {"properties": [name for name, _ in m_props], "required": m_req})
+        stats["agree"] += ok
+    return stats
+
+
+TABLE_EXACT = set(map(chr, range(128))) | set(EXTRA)
+WIDE_CLASS = re.compile(r"\\[dwsDWSbB]|\[\^|\.|\|")
+
+
+def header_friendly(pattern: str) -> bool:
+    """Unicode categories, negated classes and the dot draw characters outside latin-1, which the header / cookie filter rejects
+    over and over (seconds per draw): those locations get literal / positive ASCII class patterns only."""
+    return not WIDE_CLASS.search(pattern)
+
+
+def draw_cases_guarded(op, seed_value, n, limit):
+    """draw_cases under a wall-clock limit (SIGALRM; main thread only).  None = too slow, skipped."""
+    import signal
+
+    fired = []
+
+    def on_alarm(signum, frame):
+        if active:
+            fired.append(1)
+            raise ReTimeout()
+
+    active = [1]
+    old_handler = signal.signal(signal.SIGALRM, on_alarm)
+    # repeating: hypothesis replays the interrupted example for its final report, and that replay grinds just the same
+    signal.setitimer(signal.ITIMER_REAL, limit, 0.5)
+    try:
+        return draw_cases(op, seed_value, n)
+    except BaseException:  # noqa: BLE001
+        active.clear()
+        if not fired:
+            raise
+        return None
+    finally:
+        active.clear()
+        signal.setitimer(signal.ITIMER_REAL, 0)
+        signal.signal(signal.SIGALRM, old_handler)
+
+
+def string_value_violations(sch, value):
+    """The DECLARED string keywords read with re.search / len, as python-jsonschema reads them."""
+    bad = []
+    p = sch.get("pattern")
+    if p is not None:
+        try:
+            if not re_search(p, value):
+                bad.append(f"the declared pattern {p!r} does not match")
+        except ReTimeout:
+            pass
+    if "minLength" in sch and len(value) < sch["minLength"]:
+        bad.append(f"len {len(value)} < minLength {sch['minLength']}")
+    if "maxLength" in sch and len(value) > sch["maxLength"]:
+        bad.append(f"len {len(value)} > maxLength {sch['maxLength']}")
+    return bad
+
+
+def stage_parameter_patterns(chk, n_docs, draws=8, deadline=None, corpus=()):
+    """Oracle for the parameter side: documents with string parameters in path / query / header / cookie whose patterns come from
+    every class of the rewriter, with and without declared lengths -> as_strategy() positive draws; every value (read through the
+    coercion of its location) is checked against the DECLARED pattern with re.search and the DECLARED lengths.  A failing value is
+    attributed to a recorded rewriter finding only if the declared schema carries the bounds that make the rewriter run
+    (Model_C01.declared_length), the Coq model of the pipeline accepts the value as well, and a region predicate evaluated on the
+    DECLARED bounds is false; everything else is a violation with the failing input."""
+    import schemathesis
+    from hypothesis.errors import Unsatisfiable
+
+    rng = chk.rng
+    stats = {"documents": 0, "draws": 0, "values_checked": 0, "undeclared_length_values": 0, "failing_values": 0, "unsatisfiable": 0, "by_region": {}}
+    failing = []
+    queue = [[{"name": "id", "in": c["in"], "required": True, "schema": dict(c["schema"])}] for c in corpus]
+    for _ in range(n_docs + len(queue)):
+        if deadline is not None and time.time() > deadline:
+            stats["stopped_at_deadline"] = True
+            break
+        dialect = rng.choice(["3.0", "3.0", "3.1", "2.0"])
+        from_corpus = bool(queue)  # hand-picked parameters first, one per document
+        params = queue.pop(0) if from_corpus else []
+        if from_corpus and dialect == "2.0" and params[0]["in"] == "cookie":
+            dialect = "3.0"
+        for location, name in () if from_corpus else (("path", "id"), ("path", "kind"), ("query", "q"), ("header", "X-A"), ("cookie", "c")):
+            if (dialect == "2.0" and location == "cookie") or rng.random() < (0.3 if location == "path" else 0.5):
+                continue
+            while True:
+                sch, cls = gen_declared(rng, want_pattern=1.0, strings_only=True)
+                sch.pop("x-note", None)
+                if sch.get("nullable") is True or dialect == "3.1":
+                    sch.pop("nullable", None)
+                if location in ("header", "cookie") and (cls == "generated" or not header_friendly(sch["pattern"])):
+                    continue
+                if cls != "generated" or plain_syntax(sch["pattern"]):
+                    break
+            if rng.random() < 0.6:
+                # the input class of interest: a pattern and NO length keyword
+                sch.pop("minLength", None)
+                sch.pop("maxLength", None)
+            else:
+                # keep declared lengths only when a conforming value is easy to find (unsatisfiable combinations only burn time)
+                try:
+                    w = satisfiable_sample(rng, to_ast(sch["pattern"]), sch["pattern"], sch.get("minLength"), sch.get("maxLength"))
+                except (Unsupported, re.error):
+                    w = None
+                if not w or any(ch in w for ch in "/{}\n\r"):
+                    sch.pop("minLength", None)
+                    sch.pop("maxLength", None)
+            params.append({"name": name, "in": location, "required": True, "schema": sch})
+        if not params:
+            continue
+        raw, path = pipeline_document(params, dialect)
+        try:
+            with warnings.catch_warnings():
+                warnings.simplefilter("ignore")
+                op = schemathesis.openapi.from_dict(raw)[path]["POST"]
+                cases = draw_cases_guarded(op, rng.getrandbits(32), draws, 1.0)
+            if cases is None:
+                stats["too_slow_skipped"] = stats.get("too_slow_skipped", 0) + 1
+                if len(stats.setdefault("too_slow_patterns", [])) < 10:
+                    stats["too_slow_patterns"].append([[p["in"], p["schema"].get("pattern"), p["schema"].get("minLength"), p["schema"].get("maxLength")] for p in params])
+                continue
+        except Unsatisfiable:
+            stats["unsatisfiable"] += 1  # over-constrained pattern / length / location filter combinations; not judged here
+            continue
+        except Exception as exc:  # noqa: BLE001
+            chk.count(f"parameter_patterns_error:{type(exc).__name__}")
+            continue  # InternalError from the rewriter etc.: the correspondence stages compare those
+        stats["documents"] += 1
+        reported = set()
+        for case in cases:
+            stats["draws"] += 1
+            containers = {"path": case.path_parameters or {}, "query": case.query or {}, "header": case.headers or {}, "cookie": case.cookies or {}}
+            for prm in params:
+                cont = containers[prm["in"]]
+                if prm["name"] not in cont:
+                    chk.fail("required parameter missing from a positive case", {"document": raw, "parameter": prm["name"]})
+                    continue
+                value = cont[prm["name"]]
+                if not isinstance(value, str):
+                    chk.fail(f"{prm['in']} parameter {prm['name']} declared as a string is generated as {type(value).__name__}", {"document": raw, "value": repr(value)})
+                    continue
+                if prm["in"] == "path":
+                    value = unquote_plus(value)  # the coercion of the path location is quote_plus (quote_all): a space travels as +
+                sch = prm["schema"]
+                declared_len = bool(sch.get("minLength") or sch.get("maxLength"))
+                stats["values_checked"] += 1
+                stats["undeclared_length_values"] += not declared_len
+                chk.seen({"parameter_value": [prm["in"], sch, value]}, True)
+                chk.count(f"parameter_patterns:{prm['in']}:{'declared-length' if declared_len else 'no-length'}")
+                bad = string_value_violations(sch, value)
+                if bad and (prm["name"], tuple(bad)) not in reported:
+                    reported.add((prm["name"], tuple(bad)))
+                    stats["failing_values"] += 1
+                    failing.append((prm, raw, value, bad))
+    # ---- attribution, by the Coq model
+    exprs = []
+    for prm, raw, value, bad in failing:
+        sch = prm["schema"]
+        d = c_decl(sch)
+        exprs.append(
+            f"(let d := {d} in (declared_length d, match gen_prop {PIPE_LOCATIONS[prm['in']]} d with Some g => kw_accepts_b ascii_cat (g_kw g) {cstr(value)} | None => false end), "
+            + REGION_EXPR.format(p=c_seq(to_ast(sch['pattern'])), mn=c_optz(sch.get('minLength')), mx=c_optz(sch.get('maxLength')), s=cstr(value)) + ")"
+        )
+    model = core.coq_eval(IMPORTS, exprs) if exprs else []
+    for (prm, raw, value, bad), mv in zip(failing, model):
+        declared, model_accepts, flags = mv  # Coq prints ((a, b), c) as (a, b, c)
+        sch = prm["schema"]
+        table_exact = set(value) <= TABLE_EXACT and set(sch["pattern"]) <= TABLE_EXACT
+        if not declared:
+            region, why = None, "the declared schema carries no minLength / maxLength: the pattern rewriter must not have run"
+        elif table_exact and not model_accepts:
+            region, why = None, "the model of the conversion pipeline (Model_C01.gen_prop) does not generate this value"
+        else:
+            region = classify(flags)
+            why = "attributed by the region predicates on the declared bounds"
+        stats["by_region"][region or "NONE"] = stats["by_region"].get(region or "NONE", 0) + 1
+        chk.fail(f"{prm['in']} parameter {prm['name']} of a positive case violates its DECLARED string keywords: " + "; ".join(bad),
+                 {"document": raw, "in": prm["in"], "declared": sch, "value": value}, why, region=region)
+    return stats
+
+
+# ----------------------------------------------------------------------------------------
 # Generation settings: allow_x00 / codec
 # ----------------------------------------------------------------------------------------
 CONFIG_DOC = {
@@ -2186,6 +2643,9 @@ def run(chk: core.Check):
         "python-jsonschema Draft4/2020-12 validators as the meaning of 'conforms' in the end-to-end oracle",
         "Model_C01 section 9: Python containers as trees whose dicts / lists carry an identity, mutations addressed to an identity and recorded in a log; "
         "the harness compares the erased result AND the erased input-after-the-call with the real functions (deep comparison of a private copy)",
+        "Model_C01 section 10: a parameter schema as the record of the keywords the pipeline looks at (type, nullable, pattern, minLength, maxLength, "
+        "any-other-keyword flag); the harness records the schema object that reaches hypothesis_jsonschema.from_schema (a wrapper around the foreign "
+        "function, installed only while get_parameters_strategy is called) and compares it property by property",
         "correspondence harness harness/props/c01.py (encoders, Coq output parser, generators)",
     ]
     chk.assumptions = [
@@ -2202,7 +2662,11 @@ def run(chk: core.Check):
         "strings = random walks through the (rewritten) AST then mutated (trailing newline, padding, insert/delete, junk); non-trivial = the rewriter rewrote / the string matches; distinct by canonical JSON; "
         "aliasing: object schemas with readOnly / writeOnly / x-writeOnly markers (true, false, truthy non-bool), required lists with marked / unmarked / undeclared / duplicate names, existing not, "
         "nested objects, arrays, allOf, bool subschemas x copy flag x direction; histories = documents (3.0 / 2.0) with 2-4 shared components behind $ref, 2-4 operations, "
-        "3-10 actions from init / validate a response / resolve a reference / generate, lazily walked (engine order) or in free order"
+        "3-10 actions from init / validate a response / resolve a reference / generate, lazily walked (engine order) or in free order; "
+        "parameter pipeline: 1-3 parameters of one location (path / query / header / cookie; 3.0, 3.1, 2.0) whose patterns come from every class of the rewriter's case split "
+        "(single class or literal anchored on both / one / no side, single repeat, multi-quantifier, left alone) or from the pattern generator, x no length keyword (45%) / minLength / maxLength / both "
+        "(0 included) x nullable absent / true / false x type string / absent / integer x vendor keyword; parameter oracle: the same declared schemas (strings, 60% without length keywords, "
+        "declared lengths kept only when satisfiable) in all four locations of one operation, 8 positive draws each"
     )
     chk.proofs(["Common", "C01"])
     rng = chk.rng
@@ -2243,6 +2707,8 @@ def run(chk: core.Check):
     # a broken proof / correspondence must try harder to find a concrete failing input, but within a wall-clock cap (quick: ~4 min in all)
     chk.stages["correspondence_nullable"] = stage_nullable(chk, 400 if quick else 5000)
     chk.stages["correspondence_converter_purity"] = stage_converter_purity(chk, 50 if quick else 500)
+    param_corpus = [c for c in corpus if c.get("kind") == "parameter"]
+    chk.stages["correspondence_location_pipeline"] = stage_location_pipeline(chk, 250 if quick else 2500, corpus=param_corpus)
 
     boost = 10 if chk.broken else 1
     cap = (225 if quick else 1500) if chk.broken else None
@@ -2250,6 +2716,7 @@ def run(chk: core.Check):
     chk.stages["search_history"] = stage_history(chk, (32 if quick else 250) * (3 if chk.broken else 1), deadline=cap and t0 + cap * 0.4)
     chk.stages["search_rewriter"] = stage_rewrite_search(chk, rewritten, (6 if quick else 12) * boost, deadline=cap and t0 + cap * 0.45)
     chk.stages["search_string_level"] = stage_string_level(chk, (400 if quick else 6000) * boost, deadline=cap and t0 + cap * 0.6)
+    chk.stages["search_parameter_patterns"] = stage_parameter_patterns(chk, (45 if quick else 300) * (3 if chk.broken else 1), deadline=cap and t0 + cap * 0.8, corpus=param_corpus)
     chk.stages["search_generation_config"] = stage_generation_config(chk, 3 if quick else 25)
     chk.stages["search_end_to_end"] = stage_end_to_end(chk, (45 if quick else 700) * boost, deadline=cap and t0 + cap)
 
